@@ -29,16 +29,25 @@ def analyse(scn, lines, info):
     names = ch.class_names()
     tables = [table_of(l) if " table=[" in l else None for l in lines]
     ops = [None] + list(scn.ops)
+    saved = None           # the table as of the last checkpoint written to the folder
+    nb = [int(l.split(" b=")[1].split(" ")[0]) if " b=" in l else None for l in lines]
     for i in range(1, len(lines)):
         if tables[i] is None or tables[i - 1] is None:
             continue
-        for cls, idv in tables[i - 1].items():
-            if tables[i].get(cls) != idv:
-                msg = f"id of {names[cls]} changed from {idv} to {tables[i].get(cls)} at op {ops[i][0]}"
-                (known if ops[i][0] == "R" else errs).append(msg)
+        op = ops[i][0]
+        if op == "R":
+            # a restore brings back the table that was stored with the checkpoint, nothing else
+            if saved is not None and tables[i] != saved:
+                errs.append(f"restore returned the id table {tables[i]}, the checkpoint was written with {saved}")
+        else:
+            for cls, idv in tables[i - 1].items():
+                if tables[i].get(cls) != idv:
+                    errs.append(f"id of {names[cls]} changed from {idv} to {tables[i].get(cls)} at op {op}")
+        if op == "K" or (op == "C" and scn.folder and nb[i] is not None and nb[i - 1] is not None and nb[i] > nb[i - 1]):
+            saved = dict(tables[i])
         ids = list(tables[i].values())
         if len(set(ids)) != len(ids):
-            errs.append(f"two classes share an id after op {ops[i][0]}: {tables[i]}")
+            errs.append(f"two classes share an id after op {op}: {tables[i]}")
     # labels identify the producing class in the final table
     cal = info["cal"]
     order = info["rec"].get("_order", [])
@@ -78,7 +87,7 @@ def run(chk: Check):
                 "every run ends with a checkpoint in a real folder on which plot_results._get_samplers_names is called. "
                 "non-trivial = at least one set_samplers/set_scheduler and >= 2 batches")
     chk.trusted_base = ["Lean 4.33 kernel", "python dict preserves insertion order (id table)", "pickle round trip of the scheduler", "stubs of harness/vp/calharness.py"]
-    chk.assumptions = ["monotonicity theorems exclude restore; restore rebuilding the table from the line-up is modelled as the code does it and is a recorded known finding"]
+    chk.assumptions = ["a restore returns the table stored with the checkpoint (which may be older than the live one): 'never reassigned' is about one life line of the calibrator"]
     chk.proof_stage(PROP_FILE)
     n = 120 if chk.tier == "quick" else 2000
     for i in range(n):
@@ -97,14 +106,9 @@ def run(chk: Check):
             errs, known = analyse(scn, lines, info)
             for e in errs[:3]:
                 chk.fail("id table: " + e, {"case": scn_json(scn)})
-            for k in known[:1]:
-                chk.fail("id table: " + k, {"case": scn_json(scn)}, signature=SIG_RESTORE)
             ids, truth, got = plot_lookup(scn, info)
             if got != truth:
-                lineup_changed = any(o[0] in ("SS", "SCH") for o in scn.ops)
-                if lineup_changed and not isinstance(got, str) or (lineup_changed and isinstance(got, str) and got.startswith("KeyError")):
-                    chk.fail(f"plot lookup after set_samplers/set_scheduler: ids {ids} are {truth}, recovered {got}", {"case": scn_json(scn)}, signature=SIG_PLOT)
-                else:
+                if True:
                     chk.fail(f"plotting cannot map ids {ids} (really {truth}) back to names from the calibrator's checkpoint: {got}", {"case": scn_json(scn)})
             ok, k, a, b = ch.compare(scn, lines, info)
             if not ok:
